@@ -83,6 +83,15 @@ static void flaky_clock(struct res *r) {
         else { r->validated++; r->cls[0]++; }
     }
     E.clock_seq_n = 0;
+    /* what the clock read when the dependencies were injected is irrelevant: it fails at injection and works at creation, and the reverse */
+    { static const uint64_t AT_INJECT[] = { UINT64_MAX, 0, R_EPOCH - 5, R_EPOCH + 999 * R_STEP, R_EPOCH + 10 * R_STEP }; static const uint64_t AT_CREATE[] = { R_EPOCH + 24 * R_STEP + 1234, UINT64_MAX, R_EPOCH + 3, R_EPOCH + 500 * R_STEP + 1 };
+      for (unsigned i = 0; i < 5; i++) for (unsigned c = 0; c < 4; c++) { E.clock[0] = AT_INJECT[i]; inject(0); polyseed_enable_features(7); E.clock[0] = AT_CREATE[c];
+          polyseed_data *s = NULL; int st = polyseed_create(0, &s); r->cases++; r->calls++; char rep[120]; snprintf(rep, sizeof rep, "atinject %llu %llu", (unsigned long long)AT_INJECT[i], (unsigned long long)AT_CREATE[c]);
+          if (st != POLYSEED_OK) { res_viol(r, "c11:create", rep, "create failed %d", st); continue; }
+          uint64_t B = polyseed_get_birthday(s), want = ref_birthday_time(ref_birthday_index(AT_CREATE[c])); polyseed_free(s); r->calls += 2;
+          if (B != want) res_viol(r, "c11:clock-at-injection", rep, "the clock read %llu when the dependencies were injected and %llu when the seed was created: birthday %llu, expected %llu", (unsigned long long)AT_INJECT[i], (unsigned long long)AT_CREATE[c], (unsigned long long)B, (unsigned long long)want);
+          else { r->validated++; r->cls[AT_CREATE[c] == UINT64_MAX || AT_CREATE[c] < R_EPOCH ? 1 : 0]++; } }
+      E.clock[0] = R_EPOCH + 3 * R_STEP + 5; inject(0); polyseed_enable_features(7); }
     /* a random source that delivers 19 identical bytes (or nothing): the birthday still comes from the clock */
     for (int fill = 0; fill < 4; fill++) for (unsigned k = 0; k < 1024; k += 93) {
         uint8_t keep[32]; memcpy(keep, E.tape[0], 32); memset(E.tape[0], fill == 0 ? 0 : fill == 1 ? 0xFF : fill == 2 ? 0xAA : 0x01, 32);
@@ -136,6 +145,8 @@ int main(int argc, char **argv) {
     ref_init(VERIF_ROOT); sec_mark_initial(); env_init(); inject(0);
     polyseed_enable_features(7);
     struct res *r = calloc(1, sizeof *r);
+    if (a + 2 < argc && !strcmp(argv[a], "atinject")) { E.clock[0] = strtoull(argv[a + 1], NULL, 10); inject(0); E.clock[0] = strtoull(argv[a + 2], NULL, 10); polyseed_data *s = NULL; if (polyseed_create(0, &s) != POLYSEED_OK) { printf("REPRODUCED create failed\n"); return 1; }
+        uint64_t B = polyseed_get_birthday(s), want = ref_birthday_time(ref_birthday_index(E.clock[0])); printf("birthday %llu, expected %llu\n", (unsigned long long)B, (unsigned long long)want); if (B != want) { printf("REPRODUCED c11:clock-at-injection\n"); return 1; } return 0; }
     if (a + 2 < argc && !strcmp(argv[a], "libc")) {      /* libc <zone|-> <clock> */
         polyseed_dependency d; deps_variant(0, 1, 0, 0, &d); polyseed_inject(&d);
         if (strcmp(argv[a + 1], "-")) setenv("TZ", argv[a + 1], 1); else unsetenv("TZ");
